@@ -191,6 +191,7 @@ def build(ctx):
             ctx.prop('%s/no-panic-edge-reachable' % site['key'], [], z3.BoolVal(False), [], None, twin=False)
         log('[C16] %s: %d paths, %d panic edges in the kernel itself, %.1fs' % (site['key'], len(outs), n, time.time() - t))
     ctx.notes.append('shape.rs: %d panic edges decided, %d precondition-dependent' % (decided, contract))
+    wide_scan(ctx, eng)
     ctx.cover('cover/usable-page-satisfiable', [z3.BoolVal(True)])
 
 
@@ -203,6 +204,201 @@ def src_text(eng, span):
         return span
     t = eng.src.span_text(m.group(1), int(m.group(2)), int(m.group(3)), int(m.group(4)), int(m.group(5)))
     return '%s `%s`' % (m.group(1), ' '.join((t or '').split())[:70])
+
+
+# ----------------------------------------------------------------------------- C. crate-wide scan for *new* unchecked subtractions
+# Every `a - b` that rustc compiled to SubWithOverflow + assert is listed in the audited inventory c16_sites.json by
+# (function identity, source text). An inventory site is caller-contract dependent and not decided. A subtraction that is NOT
+# in the inventory (a checked/saturating operation that became `-`, or new code) is decided by under-constrained symbolic
+# execution of its function from entry; if it can underflow it goes to native replay on a stress corpus.
+
+SITES_FILE = os.path.join(VERIF, 'c16_sites.json')
+
+
+def fn_identity(eng, r):
+    return '%s|%s|%s|%s' % (r['file'] or '', r['trait'] or '', r['self_ty'] or '', r['tail'] if r['file'] else r['name'])
+
+
+def sub_sites_of(eng, r):
+    """[(bb, span, source text)] of the SubWithOverflow asserts of one function (syntactic)"""
+    from mirsym.mirparse import block_parsed
+    fn = eng.get_fn(r['name'])
+    out = []
+    for bb, blk in fn.blocks.items():
+        if blk.get('cleanup'):
+            continue
+        try:
+            stmts, term = block_parsed(blk)
+        except Exception:
+            continue
+        if term[0] == 'assert' and 'attempt to compute `{} - {}`' in term[3]:
+            span = (blk.get('spans') or [None])[-1]
+            out.append((bb, span, src_text(eng, span)))
+    return out
+
+
+def wide_scan(ctx, eng, record=False):
+    inv = {}
+    if os.path.exists(SITES_FILE):
+        inv = json.load(open(SITES_FILE))['sites']
+    elif not record:
+        raise Inconclusive('c16_sites.json missing')
+    new_inv = {}
+    candidates = []
+    nfun = nsite = 0
+    for r in eng.records:
+        if not r['is_plain']:
+            pass
+        mir = eng.mirs[r['mir']]
+        hdr = mir.headers[r['name']]
+        if not hdr.startswith('fn '):
+            continue
+        s_, e_ = mir.index[r['name']]
+        if not any('SubWithOverflow' in ln for ln in mir.lines[s_:e_]):
+            continue
+        try:
+            sites = sub_sites_of(eng, r)
+        except Exception:
+            continue
+        if not sites:
+            continue
+        nfun += 1
+        ident = fn_identity(eng, r)
+        cur = new_inv.setdefault(ident, {})
+        here = {}
+        for (_, _, t) in sites:
+            here[t] = here.get(t, 0) + 1
+        for t, n_ in here.items():
+            cur[t] = cur.get(t, 0) + n_
+        nsite += len(sites)
+        known = inv.get(ident, {})
+        for (bb, span, t) in sites:
+            if here[t] > known.get(t, 0):
+                candidates.append((r, bb, span, t))
+    if record:
+        with open(SITES_FILE, 'w') as f:
+            json.dump({'comment': 'audited inventory of unchecked usize subtractions (function identity -> source texts); caller-contract dependent, not decided by C16; '
+                                  'a subtraction outside this list is decided by the wide scan', 'sites': new_inv}, f, indent=1, sort_keys=True)
+        log('[C16] recorded %d subtraction sites in %d functions' % (nsite, nfun))
+        return
+    ctx.notes.append('wide scan: %d unchecked subtractions in %d functions, %d outside the audited inventory' % (nsite, nfun, len(candidates)))
+    if not candidates:
+        ctx.prop('wide-scan/no-unchecked-subtraction-outside-the-audited-inventory', [], z3.BoolVal(False), [], None, twin=False)
+        return
+    by_fn = {}
+    for (r, bb, span, t) in candidates:
+        by_fn.setdefault(r['name'], (r, []))[1].append((bb, span, t))
+    eng.lenient = True
+    eng.usize_bound = LIM
+    eng.stubs = []
+    eng.no_inline = [re.compile(r'to_string')]
+    eng.inline_only = [re.compile(r'src/shape\.rs'), re.compile(r'src/config/config_type\.rs'), re.compile(r'^Config::'), re.compile(r'^(std|core)::cmp::')]
+    old_lb = eng.loop_bound
+    eng.loop_bound = 3
+    for name, (r, sites) in sorted(by_fn.items()):
+        fn = eng.get_fn(name)
+        st = State()
+        wanted = {bb for (bb, _, _) in sites}
+        hits = {}
+        eng.block_budget = 60000
+        try:
+            args = [fresh_arg(eng, st, ty, 'a%d' % i) for i, (_, ty) in enumerate(fn.params)]
+            outs = eng.run(name, args, st)
+        except Exception as e:
+            outs = None
+            err = '%s: %s' % (type(e).__name__, e)
+        finally:
+            eng.block_budget = None
+        for (bb, span, t) in sites:
+            label = 'wide-scan/%s/new-subtraction `%s`' % (short_name(name), t[:80])
+            if outs is None:
+                ctx.inconclusive.append('%s: function could not be explored (%s)' % (label, err[:200]))
+                continue
+            pcs = [o for o in outs if o.kind == 'panic' and o.info.get('fn') == name and o.info.get('bb') == bb]
+            if not pcs:
+                # not reached as a failing assert on any explored path: safe within the exploration bound
+                ctx.prop(label + '/cannot-underflow(within the loop bound)', [], z3.BoolVal(False), [], None, twin=False)
+                continue
+            mv = []
+            seen = set()
+            for o in pcs:
+                for v in model_vars_of(o.state):
+                    if v.decl().name() not in seen:
+                        seen.add(v.decl().name())
+                        mv.append(v)
+            viol = z3.Or([z3.And(o.state.pc) if o.state.pc else z3.BoolVal(True) for o in pcs])
+            ctx.prop(label + '/cannot-underflow', [], viol, mv[:40], make_corpus_replay(ctx, span), twin=False, hint=[z3.ULT(v, 300) for v in mv[:40] if z3.is_bv(v)])
+    eng.loop_bound = old_lb
+
+
+def short_name(name):
+    return re.sub(r'<impl at (src/[^:]+):\d+:\d+: \d+:\d+>', r'<\1>', name)[-70:]
+
+
+STRESS2 = r'''
+mod a { mod b { mod c { mod d { mod e {
+    /// Doc list:
+    /// * first item with a rather long text that has to be wrapped somewhere along the way
+    ///   * nested item, also long enough to need wrapping when the page is narrow
+    ///     * third level &CacheEntryWithExpiryAndOwnerAndMoreThanTheLineCanHold and more words
+    ///       1. numbered fourth level with text text text text text text text text
+    fn documented(argument_one: usize) -> usize {
+        // - plain comment list item that is long enough to wrap around the narrow page width
+        //     - deeply indented sub item @aaaaaaaaaaaaaaaaaaaaaaaaaaaaaaaaaaaaaaaaaaaaaaaaaaaaaaaaaaaaaaaaaaaaaaaa
+        let s = "a string literal that is long enough to be broken @aaaaaaaaaaaaaaaaaaaaaaaaaaaaaaaaaaaaaaaaaaaaaaaaaa #bbbbbbbbbbbbbbbbbbbbbbbbbbbbbbbbbbbbb";
+        let v = vec![1, 2, 3].iter().map(|x| x + argument_one).filter(|x| *x > 1).collect::<Vec<_>>();
+        match v.len() { 0 => 0, n if n > 3 => { n - 1 } _ => 2 }
+    }
+    struct S<'a, T: Clone + Send + Sync + 'a> { field_one: &'a T, field_two: Option<Vec<T>>, }
+    impl<'a, T: Clone + Send + Sync + 'a> S<'a, T> { fn method(&self, x: usize, y: usize) -> Result<usize, String> { if x > y { Ok(x - y) } else { Err(format!("{} {}", x, y)) } } }
+} } } } }
+'''
+
+
+def make_corpus_replay(ctx, span):
+    def replay(model, r):
+        bins = ensure_bins()
+        rf = os.path.join(bins, 'rustfmt')
+        import concurrent.futures as cf
+        sp = re.match(r'(\S+?):(\d+):', span or '')
+        want = '%s:%s:' % (sp.group(1), sp.group(2)) if sp else None
+        d = os.path.join(BUILD, 'scratch', 'c16w-%d' % os.getpid())
+        shutil.rmtree(d, ignore_errors=True)
+        os.makedirs(d)
+        files = []
+        for i, txt in enumerate((STRESS, STRESS2)):
+            p = os.path.join(d, 'stress%d.rs' % i)
+            open(p, 'w').write(txt)
+            files.append(p)
+        for root in ('tests/source', 'tests/target'):
+            for dp, dn, fns in os.walk(os.path.join(REPO, root)):
+                for f in sorted(fns):
+                    if f.endswith('.rs'):
+                        files.append(os.path.join(dp, f))
+        cfgs = ['max_width=%d,wrap_comments=true,format_strings=true,normalize_comments=true,format_code_in_doc_comments=true%s' % (mw, extra)
+                for mw in (20, 34, 40, 60) for extra in ('', ',hard_tabs=true', ',style_edition=2024')]
+        env = run_env()
+        jobs = [(f, c) for f in files[:2] for c in cfgs] + [(f, c) for f in files[2:] for c in cfgs[:4]]
+
+        def one(job):
+            f, c = job
+            try:
+                pr = subprocess.run([rf, '--emit', 'stdout', '--quiet', '--config', c, f], capture_output=True, text=True, env=env, timeout=60)
+            except subprocess.TimeoutExpired:
+                return None
+            if 'panicked at' in pr.stderr:
+                loc = re.search(r'panicked at ([^\n]*)', pr.stderr)
+                return (os.path.relpath(f, REPO), c, loc.group(1) if loc else '?')
+            return None
+        hits = []
+        with cf.ThreadPoolExecutor(max_workers=14) as ex:
+            for res in ex.map(one, jobs):
+                if res:
+                    hits.append(res)
+        shutil.rmtree(d, ignore_errors=True)
+        rel = [h for h in hits if want and want in h[2]]
+        return {'reproduced': bool(rel), 'detail': rel[:3], 'site': span, 'runs': len(jobs), 'other_panics': len(hits) - len(rel)}
+    return replay
 
 
 def _self_of(eng, r):
@@ -269,4 +465,9 @@ def make_replay(ctx, kind, label, info):
 
 
 if __name__ == '__main__':
+    if '--record-inventory' in sys.argv:
+        c = Ctx('C16', 'quick', 0)
+        e = c.engine('lib', loop_bound=10)
+        wide_scan(c, e, record=True)
+        sys.exit(0)
     main_wrapper('C16', build)
